@@ -2187,7 +2187,8 @@ class SSHTunTapChannel(SSHForwardChannel[bytes]):
     def _accept_data(self, data: bytes, datatype: DataType = None) -> None:
         """Strip off address family on incoming packets in TUN mode"""
 
-        if self._mode == SSH_TUN_MODE_POINTTOPOINT:
+        if self._mode == SSH_TUN_MODE_POINTTOPOINT and \
+                self._send_state not in {'close_pending', 'closed'}:
             # The peer counted the address family against the window too
             self._recv_window -= len(data[:4])
             data = data[4:]
